@@ -72,6 +72,11 @@ def fresh_state(ctx, prog, rule):
     desc = {}
     ok = True
     for k, want in (("buffer", "Vec::<T>::new"), ("buffer_sizes", "from_elem"), ("byte_streams", "from_elem"), ("queues", "from_elem")):
+        if k not in agg:
+            # the buffer is no longer a field of the iterator's own QueueReader: it lives somewhere that outlives the iterator
+            desc[k] = "<not a field of QueueReader any more>"
+            ok = False
+            continue
         t = strip(R.operand(agg[k]))
         desc[k] = tree_str(t)[:80]
         good = t[0] == "call" and t[1].endswith(want)
